@@ -140,7 +140,7 @@ namespace Acb.Costs
     tie of the yearly maximum, a registered and a non-default row.  The rows satisfy `WF`, the run
     completes, and the figures are the hand-computed ones (AAA is carried at its closing cost 0
     after day 10, not at the day's maximum 100; of the tied days 10 and 30 the earlier is shown). -/
-private def exRows : List Row := [
+def exRows : List Row := [
   { sec := 0, day := 10, pre := some 0, post := some 100, dflt := true },
   { sec := 0, day := 10, pre := some 100, post := some 0, dflt := true },
   { sec := 1, day := 20, pre := some 5, post := some 25, dflt := true },
@@ -175,4 +175,36 @@ example : exGet (fun c => (c.yearlyRows exYear).map (fun yr => (yr.1, yr.2.map (
     some [(0, some 10), (1, some 400)] := by decide +kernel
 example : exGet (fun c => c.notes) = some [Note.registered 20 2, Note.nonDefault 400 0 3] := by decide +kernel
 
+
+/-! ### F-17 as it was: the second loop carried the day's maximum forward -/
+
+/-- body of `for sec in &security_set` before the fix: `last_acbs` receives the figure of the day
+    (the day's maximum when the security settled that day) -/
+def fillSecLegacy (st : St) (d : Int) (f : Fill) (s : Nat) : Fill :=
+  let v := match f.tab.cost d s with
+    | some m => m
+    | none => carriedCost st f s
+  { tab := if (f.tab.cost d s).isSome then f.tab else observe f.tab d s v,
+    last := fun s' => if s' = s then some v else f.last s' }
+
+def legacyCell (rows : List Row) (d : Int) (s : Nat) : Option Rat :=
+  match loop1 rows St.init with
+  | .ok st =>
+    ((sortDays st.days).foldl (fun f d' => (sortNats st.secs).foldl (fillSecLegacy st d') f)
+      { tab := st.tab, last := fun _ => none }).tab.cost d s
+  | .error _ => none
+
 end Acb.Costs
+
+namespace Acb
+open Acb.Costs
+/-- **F-17 as it was.**  On the example above (AAA bought and sold out on day 10) the legacy second
+    loop shows AAA at 100 on day 20, where the required figure — the cost base after AAA's most
+    recent earlier transaction — is 0; the repaired model shows 0 (`C17_day_figures`). -/
+theorem C17_F17_was_wrong :
+    legacyCell exRows 20 0 = some 100 ∧ figure exRows 0 20 = 0 ∧ Figure exRows 0 20 0 := by
+  refine ⟨by decide +kernel, by decide +kernel, ?_⟩
+  have h := figure_spec exRows 0 20
+  have e : figure exRows 0 20 = 0 := by decide +kernel
+  rw [e] at h; exact h
+end Acb
